@@ -1001,7 +1001,7 @@ class Species(AtomCollection):
             raise ValueError("Invalid mapping. Must be 1-1 for all atoms")
 
         order = sorted(mapping, key=lambda k: mapping[k])
-        self._atoms = Atoms([self.atoms[i] for i in order])
+        self._set_reordered_atoms(order)
 
         # The gradient and Hessian rows must follow their atoms
         if self._grad is not None:
@@ -1012,17 +1012,23 @@ class Species(AtomCollection):
             self._hess = Hessian(
                 np.asarray(self._hess)[np.ix_(idxs, idxs)],
                 units=self._hess.units,
-                atoms=self._atoms,
+                atoms=self.atoms,
                 functional=self._hess.functional,
             )
 
-        if self.graph is None:
-            return  # No need to re-order a graph that is not set
+        if self._graph is None:
+            # A graph generated from now on will use the re-ordered atoms
+            return
 
         self.graph = reorder_nodes(
             graph=self.graph, mapping={u: v for v, u in mapping.items()}
         )
         return
+
+    def _set_reordered_atoms(self, order: Sequence[int]) -> None:
+        """Set the atoms of this species in a new order"""
+        self._atoms = Atoms([self.atoms[i] for i in order])
+        return None
 
     @requires_atoms
     def is_linear(
@@ -1114,7 +1120,11 @@ class Species(AtomCollection):
 
         # The gradient and Hessian must rotate with the frame
         if self._grad is not None:
-            self._grad[:] = np.dot(np.asarray(self._grad), rot_mat.T)
+            # NOTE: A new (float) array, thus also valid for integer gradients
+            self._grad = val.Gradient(
+                np.dot(np.asarray(self._grad, dtype=float), rot_mat.T),
+                units=self._grad.units,
+            )
 
         if self._hess is not None:
             full_rot_mat = np.kron(np.eye(self.n_atoms), rot_mat)
